@@ -58,8 +58,6 @@ RootArgsOf(dd, i)  == {p \in UNION {ParamsOf(dd, j) : j \in Ancestors(dd, i)} :
 (* the call supplies a value for an output of a function i depends on (a supplied sibling output of i itself does  *)
 (* not change what i computes)                                                                                  *)
 SuppliedOnPath(dd, k, i) == \E n \in PKeys(k) : n \in AllOutputs(dd) /\ FuncOf(dd, n) \in Ancestors(dd, i) \ {i}
-(* a parameter bound in i is at the same time a root argument of i's output through another function *)
-BoundShadowsRoot(dd, i)  == \E p \in RootArgsOf(dd, i) : IsBound(dd, i, p)
 
 (* what executing function i NOW, in call k, returns for its output o *)
 OutTerm(dd, k, i, o) == LET ps == dd.funcs[i].params IN Term(o, [q \in 1..Len(ps) |-> ArgVal(dd, k, i, ps[q])])
